@@ -335,7 +335,7 @@ func TestMain(m *testing.M) {
 			R.Require(d.name+"/len_rewrite", d.name+"/tag_swap")
 		}
 	}
-	R.Require("p12_attr_decoded", "p12_attr_odd", "ber_depth>=1000", "vec_len_sweep", "hello_ext_sweep", "der_value_sweep")
+	R.Require("huge_length_sweep", "p12_attr_decoded", "p12_attr_odd", "ber_depth>=1000", "vec_len_sweep", "hello_ext_sweep", "der_value_sweep")
 	R.Assume("inputs that declare more than 4096 key-stretching iterations are skipped and counted as discarded (the statement exempts format-carried stretching)")
 	hx.Main(m, R)
 }
@@ -393,6 +393,35 @@ func TestC18_Perturbations(t *testing.T) {
 	}
 }
 
+// every TLV of every ASN.1 seed (up to 2 KiB) with its length replaced by each of the 32/64-bit edge values: offset+length
+// arithmetic must not wrap into a panic
+func TestC18_HugeLengths(t *testing.T) {
+	var n int64
+	for i := range decoders {
+		if i%hx.Shards() != hx.Shard() {
+			continue
+		}
+		d := &decoders[i]
+		if !d.asn1 {
+			continue
+		}
+		for _, seed := range d.seeds {
+			if len(seed) > 2048 {
+				continue
+			}
+			for _, tl := range rder.Walk(seed) {
+				for _, nl := range gen.HugeLens {
+					m := append(append(append([]byte(nil), seed[:tl.Start+1]...), nl...), seed[tl.Start+tl.HdrLen:]...)
+					runOne(t, d, m, "len_rewrite")
+					n++
+				}
+			}
+		}
+		R.Case(true, hx.HashKey("huge", d.name), "huge_length_sweep")
+	}
+	R.Subspace("every TLV of every ASN.1 seed <= 2 KiB x 10 long-form lengths at the 32/64-bit edges", n, true)
+}
+
 // thorough: every truncation and every alphabet substitution of every seed up to 2 KiB
 func TestC18_Exhaustive(t *testing.T) {
 	if !hx.Thorough() {
@@ -425,7 +454,7 @@ func TestC18_Exhaustive(t *testing.T) {
 			}
 			if d.asn1 {
 				for _, tl := range rder.Walk(seed) {
-					for _, nl := range [][]byte{{0}, rder.EncLen(0, tl.Len+1)[1:], {0x80}, {0x84, 0xff, 0xff, 0xff, 0xff}} {
+					for _, nl := range append([][]byte{{0}, rder.EncLen(0, tl.Len+1)[1:], {0x80}}, gen.HugeLens...) {
 						m := append(append(append([]byte(nil), seed[:tl.Start+1]...), nl...), seed[tl.Start+tl.HdrLen:]...)
 						runOne(t, d, m, "len_rewrite")
 						n++
@@ -435,7 +464,7 @@ func TestC18_Exhaustive(t *testing.T) {
 			R.Case(true, hx.HashKey("exh", d.name, seed), "exhaustive_seed")
 		}
 	}
-	R.Subspace("every truncation, 7-value substitution of every byte and 4 length rewrites of every TLV for each seed <= 2 KiB", n, true)
+	R.Subspace("every truncation, 7-value substitution of every byte and 13 length rewrites (incl. the 32/64-bit edge values) of every TLV for each seed <= 2 KiB", n, true)
 }
 
 // every position x width 1..3 x a catalogue of values relative to the bytes that follow: length-prefixed vectors
